@@ -420,7 +420,7 @@ Section Protocol.
     synced l (connect Repaired l f) /\
     exists s, f_ses (connect Repaired l f) = Some s /\ s_aofsize s = flen l.
   Proof.
-    intros l f res pr C Hres. unfold Follow.connect. rewrite C.
+    intros l f res pr C Hres. unfold Follow.connect, begin_connect. cbn [f_file f_mem f_aofsz f_once f_broken f_cup]. rewrite C.
     destruct Hres as [-> | ->]; rewrite drop_bytes_0; cbn.
     all: split; [unfold synced; cbn; repeat split; auto; intros; lia | eexists; split; reflexivity].
   Qed.
@@ -441,7 +441,7 @@ Section Protocol.
         rewrite Hs in C. cbn [negb] in C. now inversion C. }
     destruct (check_some_prefix (f_file f) rest ltac:(lia)) as (k & Hk & Hres).
     rewrite <- Hsz, <- Hl, C in Hres. cbn [fst] in Hres.
-    unfold Follow.connect. rewrite C.
+    unfold Follow.connect, begin_connect. cbn [f_file f_mem f_aofsz f_once f_broken f_cup]. rewrite C.
     destruct Hres as [-> | ->].
     - set (fl := firstn k (f_file f)).
       assert (Hl' : l = fl ++ (skipn k (f_file f) ++ rest)).
@@ -504,6 +504,7 @@ Section Protocol.
     inv (fst (step Repaired (l, f) e)) (snd (step Repaired (l, f) e)).
   Proof.
     intros l f e Hok (U & W & Hs). destruct e; cbn [Follow.step fst snd].
+    - (* begin *) repeat split; auto.
     - (* connect *) split; [exact U|]. split; [exact W|]. right. apply connect_synced; assumption.
     - (* deliver *) split; [exact U|]. split; [exact W|].
       destruct Hs as [Hn|Hs]; [left; unfold Follow.deliver; now rewrite Hn | right; now apply deliver_synced].
@@ -579,6 +580,28 @@ Section Protocol.
       destruct (step Repaired (l0, f0) e) as [l' f'] eqn:Est. cbn [fst snd] in *.
       eapply IH; eauto.
   Qed.
+
+  (* while a (re)connect attempt is under way - stalled or failing at any stage of the handshake, the
+     leader possibly acknowledging more writes, further attempts starting - the caught-up flag is off *)
+  Definition handshake_event (e : event) : Prop :=
+    match e with EBegin | EDrop | EPause | EAppend _ => True | _ => False end.
+
+  Lemma reconnecting_flag : forall md es l f,
+    Forall handshake_event es -> f_ses f = None -> f_cup f = false ->
+    f_cup (snd (run md (l, f) es)) = false /\ f_ses (snd (run md (l, f) es)) = None.
+  Proof.
+    intros md. induction es as [|e es IH]; intros l f Hes Hn Hc; [cbn; auto|].
+    inversion Hes as [|? ? He1 He2]; subst. unfold Follow.run. cbn [fold_left].
+    destruct e; cbn in He1; try contradiction; cbn [Follow.step].
+    - apply IH; auto.
+    - apply IH; auto.
+    - apply IH; auto.
+    - apply IH; auto; unfold leader_append; rewrite Hn; auto.
+  Qed.
+
+  Lemma reconnecting_not_caught_up : forall md l f es,
+    Forall handshake_event es -> f_cup (snd (run md (step md (l, f) EBegin) es)) = false.
+  Proof. intros md l f es Hes. cbn [Follow.step]. apply reconnecting_flag; auto. Qed.
 
   Lemma not_premature : forall l1 f1 es,
     upd_ok l1 -> wf_log l1 -> prefix_cond l1 f1 \/ startover_cond l1 f1 ->
